@@ -85,7 +85,14 @@ def exporter_scenarios(rng, tier, comps=("none", "gz", "xz"), kinds=("file", "fd
             [{"op": "rec", "n": 17}, {"op": "rot", "export": False}, {"op": "rec", "n": 1}, {"op": "rot", "export": True},
              {"op": "rec", "n": 4}, {"op": "wb"}],
             [{"op": "wb"}, {"op": "rot", "export": True}, {"op": "rec", "n": 8}, {"op": "wb"}, {"op": "rot", "export": False}],
+            # outputs of tens / hundreds of KiB: many write system calls per output, several stream-buffer fills
+            [{"op": "rec", "n": 300}, {"op": "rot", "export": True}, {"op": "rec", "n": 61}, {"op": "wb"}],
+            [{"op": "rec", "n": 62}, {"op": "wb"}, {"op": "rec", "n": 63}, {"op": "rot", "export": False}, {"op": "rec", "n": 5}, {"op": "wb"}],
+            [{"op": "rec", "n": 1200}, {"op": "wb"}, {"op": "rot", "export": True}, {"op": "rec", "n": 1}, {"op": "wb"}],
         ]
+        for k in (1, 2, 3, 5, 7, 20, 60, 64, 65):
+            shapes.append([{"op": "rec", "n": k}, {"op": "wb"}, {"op": "rec", "n": k}, {"op": "rot", "export": True},
+                           {"op": "rec", "n": k}, {"op": "wb"}])
     for comp in comps:
         for kind in kinds:
             for sh in shapes:
